@@ -152,16 +152,18 @@ Hypothesis sign_zero_iff : forall a b c,
 Notation occw := (ordered_ccw point sign).
 Notation acv := (angle_contains_vertex point sign refdir).
 
-(** cyclic-order law of OrderedCCW (four rays r,u,v,w around o): if u,v,w are met in this order
-    sweeping CCW, the wedge (u,w] is the disjoint union of (u,v] and (v,w].  True of the rays of
-    any point configuration in general position, hence of a consistent perturbed [sign]. *)
-Hypothesis occw_split : forall r u v w o,
+Variable o : point.
+
+(** the cyclic-order law of OrderedCCW, as far as it is used here: four rays r,u,v,w around o
+    with r = refdir o: if u,v,w are met in this order sweeping CCW, the wedge (u,w] is the
+    disjoint union of (u,v] and (v,w]. *)
+Hypothesis split_o : forall u v w,
   peq u o = false -> peq v o = false -> peq w o = false ->
   peq u v = false -> peq v w = false -> peq u w = false ->
   occw u v w o = true ->
-  Z.b2z (negb (occw r u w o)) = Z.b2z (negb (occw r u v o)) + Z.b2z (negb (occw r v w o)).
+  Z.b2z (negb (occw (refdir o) u w o)) =
+  Z.b2z (negb (occw (refdir o) u v o)) + Z.b2z (negb (occw (refdir o) v w o)).
 
-Variable o : point.
 
 (** the wedge from u CCW to v contains the vertex: AngleContainsVertex(v, o, u) *)
 Definition wedge (u v : point) : Z := Z.b2z (acv v o u).
@@ -218,13 +220,13 @@ Proof.
     assert (Hvo : peq v o = false) by (apply (ccw_listed_ne _ v Hv); left; reflexivity).
     assert (Hzo : peq z o = false) by (apply (ccw_listed_ne _ z Hv); right; exact Iz).
     unfold wedge, angle_contains_vertex.
-    pose proof (occw_split (refdir o) u v z o Hu Hvo Hzo Huv Hvz Huz Ho). lia.
+    pose proof (split_o u v z Hu Hvo Hzo Huv Hvz Huz Ho). lia.
 Qed.
 
 (** AngleContainsVertex property (3): given v_1 .. v_k (k >= 2) in CCW order around o, exactly
     one of the k wedges (v_i, v_{i+1}] (cyclically) contains the vertex, i.e.
     AngleContainsVertex(v_{i+1}, o, v_i) is true for exactly one i. *)
-Theorem acv_exactly_one_wedge : forall u v l, ccw_listed (u :: v :: l) ->
+Theorem acv_exactly_one_wedge_at : forall u v l, ccw_listed (u :: v :: l) ->
   open_count (u :: v :: l) + wedge (last l v) u = 1.
 Proof.
   intros u v l H. rewrite (open_count_chain l u v H).
@@ -242,6 +244,23 @@ Proof.
 Qed.
 
 End Wedges.
+
+(** from the unguarded law (kept for its users; the law itself needs a guard to hold of the real
+    predicate, see Proofs/C03_Cyclic.v [acv_exactly_one_wedge_ne]) *)
+Theorem acv_exactly_one_wedge (point : Type) (peq : point -> point -> bool)
+    (sign : point -> point -> point -> Z) (refdir : point -> point)
+    (peq_sym : forall a b, peq a b = peq b a)
+    (sign_swap : forall a b c, sign c b a = - sign a b c)
+    (sign_range : forall a b c, sign a b c = -1 \/ sign a b c = 0 \/ sign a b c = 1)
+    (sign_zero_iff : forall a b c,
+       sign a b c = 0 <-> (peq a b = true \/ peq b c = true \/ peq c a = true))
+    (occw_split : law_occw_split point peq sign) (o : point) :
+  forall u v l, ccw_listed point peq sign o (u :: v :: l) ->
+    open_count point sign refdir o (u :: v :: l) + wedge point sign refdir o (last l v) u = 1.
+Proof.
+  apply (acv_exactly_one_wedge_at point peq sign refdir peq_sym sign_swap sign_range sign_zero_iff o).
+  intros u v w. apply occw_split.
+Qed.
 
 (** sanity check of [law_occw_split] on the instance above: all five-tuples with coordinates
     in 0..6 (r may coincide with u, v, w or o) *)
